@@ -1013,6 +1013,30 @@ def scenario_programs(rng, reps):
                     n = 16 if idx % 3 else 64
                     lines.append(f"be={be} n={n} base2k={q} maxprec=53 keys=1 pool={W}:0:0/{W}:0:0/{W}:0:0/{size}:0:0 vals=1 mag=1.0 ops="
                                  + ";".join(pre + [",".join(str(x) for x in body)]))
+        # fused ct·ct dot product (taken only when log_delta is uniform inside each side): both sides' (delta, budget)
+        # relations crossed — larger delta on the smaller-budget side, on the larger-budget side, equal deltas, equal budgets
+        for drel in (-1, 0, 1):
+            for brel in (-1, 0, 1):
+                for narrow in (0, 1):
+                    be, q = BACKENDS[idx % 4]
+                    idx += 1
+                    W = 7 if q == 52 else 9
+                    dA = rng.range(28, 38) if q == 52 else rng.range(15, 20)
+                    dB = dA + drel * (rng.range(3, 9) if q == 52 else rng.range(2, 5))
+                    BA = rng.range(140, 180) if q == 52 else rng.range(60, 80)
+                    BB = BA + brel * (rng.range(q // 2, 2 * q) if q == 52 else rng.range(8, 30))
+                    pre = [f"enc,0,{dA + BA},{dA},0,{q}", f"enc,1,{dA + BA - rng.below(3)},{dA},0,{q}",
+                           f"enc,2,{dB + BB},{dB},0,{q}", f"enc,3,{dB + BB - rng.below(3)},{dB},0,{q}"]
+                    body = ["dot_ct", 4, 2, 0, 1, 2, 3]
+                    sim = Sim(q, [1], 53, [(W, 0, 0)] * 4 + [(10000, 0, 0)])
+                    for o in pre:
+                        sim.step(o.split(","))
+                    out, _ = sim.step([str(x) for x in body])
+                    nat = sim.pool[4].eff() if out.startswith("ok") else 2 * q
+                    size = max(1, (nat - 1) // q - rng.below(2)) if narrow else min(W, nat // q + 1 + rng.below(2))
+                    n = 16 if idx % 3 else 64
+                    lines.append(f"be={be} n={n} base2k={q} maxprec=53 keys=1 pool={W}:0:0/{W}:0:0/{W}:0:0/{W}:0:0/{size}:0:0 vals=1 mag=1.0 ops="
+                                 + ";".join(pre + [",".join(str(x) for x in body)]))
     return lines
 
 
